@@ -148,6 +148,46 @@ def run(ctx):
         ctx.ok('R-DEFORDER', 'addVariable', 'src/PseudoNetCDF/%s Pseudo2NetCDF.addVariable' % RP, ' -> '.join(seq))
     else:
         ctx.violation(Finding('R-DEFORDER', RP, 'Pseudo2NetCDF.addVariable', av.body[-1], 'definition/properties/data order is %s' % seq))
+    # ---- R-ATTRALL / R-ITERORDER
+    ctx.rule('R-ATTRALL', 'only structural/private names are excluded when attributes are copied')
+    ctx.rule('R-ITERORDER', 'dimensions and variables are written in the source order')
+    cls = mod.cls('Pseudo2NetCDF')
+    consts = {}
+    for st in cls.body:
+        if isinstance(st, ast.Assign) and isinstance(st.targets[0], ast.Name):
+            consts[st.targets[0].id] = st.value
+    want = {'ignore_global_properties': set(['variables', 'dimensions']), 'ignore_variable_properties': set(['typecode', 'dimensions'])}
+    for name, allowed in sorted(want.items()):
+        v = consts.get(name)
+        got = set(const_str(e) for e in v.elts) if isinstance(v, (ast.List, ast.Tuple)) else None
+        w = 'src/PseudoNetCDF/%s Pseudo2NetCDF.%s' % (RP, name)
+        if got is None:
+            raise AnalysisError('anchor vanished: %s' % name)
+        if got <= allowed:
+            ctx.ok('R-ATTRALL', name, w, sorted(got))
+        else:
+            ctx.violation(Finding('R-ATTRALL', RP, 'Pseudo2NetCDF', [s2 for s2 in cls.body if isinstance(s2, ast.Assign) and norm(s2.targets[0]) == name][0],
+                                  'attributes %s are silently dropped when a file is saved' % sorted(got - allowed)))
+    for name in ('ignore_global_re', 'ignore_variable_re'):
+        v = consts.get(name)
+        pat = const_str(v.args[0]) if isinstance(v, ast.Call) and v.args else None
+        if pat is not None and pat.startswith('^_'):
+            ctx.ok('R-ATTRALL', name, 'src/PseudoNetCDF/%s Pseudo2NetCDF.%s' % (RP, name), 'only names starting with an underscore: %r' % pat)
+        else:
+            ctx.violation(Finding('R-ATTRALL', RP, 'Pseudo2NetCDF', v if v is not None else cls, 'the exclusion pattern %r matches public attribute names' % pat))
+    for qn, coll in (('Pseudo2NetCDF.addDimensions', 'pfile.dimensions.keys()'), ('Pseudo2NetCDF.addVariables', 'pfile.variables.keys()')):
+        f3 = mod.func(qn)
+        loops = [s2 for s2 in iter_stmts(f3.body) if isinstance(s2, ast.For)]
+        if loops and all(norm(l.iter) in (coll, coll[:-7]) for l in loops):
+            ctx.ok('R-ITERORDER', qn, 'src/PseudoNetCDF/%s %s' % (RP, qn), 'iterates %s in order' % coll)
+        else:
+            ctx.violation(Finding('R-ITERORDER', RP, qn, loops[0] if loops else f3, 'items are not written in the order of %s (found %s)' % (coll, [norm(l.iter) for l in loops])))
+    # variable definition passes type code and dimension tuple through unchanged
+    cvc = [c for c in walk_expr(av) if isinstance(c, ast.Call) and (dotted(c.func) or '').endswith('createVariable')]
+    if cvc and [norm(a) for a in cvc[0].args[:3]] == ['k', 'typecode', 'pvar.dimensions']:
+        ctx.ok('R-ITERORDER', 'addVariable signature', 'src/PseudoNetCDF/%s Pseudo2NetCDF.addVariable' % RP, 'createVariable(k, typecode, pvar.dimensions, ...)')
+    else:
+        ctx.violation(Finding('R-ITERORDER', RP, 'Pseudo2NetCDF.addVariable', api.stmt_of(cvc[0]) if cvc else av, 'the disk variable is not defined with the source name, type code and dimension tuple'))
     # ---- the converter never writes its source (shared with C05 R-QMUT)
     from .c05 import _qmut_scan
     nq = 0
